@@ -1,6 +1,6 @@
 (* Properties_C01.v — obligations of property C01 (basic tuning fields always equal the last
    error-free reception). *)
-Require Import ObsRun Lemmas_Tuning.
+Require Import ObsRun Lemmas_Tuning Lemmas_Leaf.
 Local Open Scope Z_scope.
 
 (* For EVERY history h of API calls with well-formed arguments (16-bit blocks, error codes 0..255,
@@ -40,6 +40,21 @@ Proof.
     [apply get_pty_spec|apply get_tp_spec|apply get_ta_spec|apply get_ms_spec|apply get_group_spec]; exact Hb.
 Qed.
 Print Assumptions C01_bit_fields.
+
+(* THE CODE ITSELF.  GenLeaf.v is produced on every run by tools/cleaf.py from clang's typed AST of
+   the C sources (every implicit integer conversion explicit).  The translated C functions equal the
+   functions the model uses, for every value of the four 16-bit blocks: the PI, PTY, TP, TA, MS
+   extractors and the group-type / version dispatch fields *)
+Theorem C01_code_extractors : forall d0 d1 d2 d3, 0 <= d1 < 65536 ->
+  c_get_pi d0 d1 d2 d3 = d0 /\ c_get_pty d0 d1 d2 d3 = get_pty d1 /\ c_get_tp d0 d1 d2 d3 = get_tp d1
+  /\ c_get_ta d0 d1 d2 d3 = get_ta d1 /\ c_get_ms d0 d1 d2 d3 = get_ms d1
+  /\ c_get_group d0 d1 d2 d3 = get_group d1 /\ c_get_flag d0 d1 d2 d3 = get_flag d1.
+Proof.
+  intros d0 d1 d2 d3 H. repeat split;
+    [apply leaf_get_pi|apply leaf_get_pty|apply leaf_get_tp|apply leaf_get_ta|apply leaf_get_ms
+    |apply leaf_get_group|apply leaf_get_flag]; exact H.
+Qed.
+Print Assumptions C01_code_extractors.
 
 Example C01_scenario : check_run_u (observer_u 1) scenario = true.
 Proof. vm_compute. reflexivity. Qed.
